@@ -11,7 +11,7 @@ from .contract import Contract, Loop
 from .source import (MissingFunction, OutOfSubset, find_function, load_module, loops_in,
                      strip_docstring)
 from .spec import SPECS
-from .values import (V, VBool, VBound, VClosure, VInt, VMatch, VNone, VOpaque, VPy, VRec, VRef,
+from .values import (V, VBool, VBound, VClosure, VInt, VMatch, VNone, VObj, VOpaque, VPy, VRec, VRef,
                      VSeq, VStr, VStrJoin, VTuple)
 
 
@@ -769,6 +769,11 @@ def _record_input(path, name, v):
         path.inputs[name] = v.t
     elif isinstance(v, VStrJoin):
         path.inputs[name + ".joined"] = v.joined
+    elif isinstance(v, VObj):
+        for f, x in v.fields.items():
+            _record_input(path, f"{name}.{f}", x)
+    elif isinstance(v, VOpaque):
+        path.inputs[name] = v.t
 
 
 def verify_spec_lemmas(registry) -> FunctionResult:
